@@ -73,7 +73,7 @@ CLAIMED = {
             "; symbolic case analysis (index on left / right / both) of the annealing move evaluator against the survival rule; freshness of the sub-optimizer behind stored scores (shared with C16); evaluation of the processor's pure leg-arithmetic functions over a bounded family of term pairs against the survival rule and cost definitions (DESIGN E9)"),
     "C19": ("4 C19", "every per-slice combination site uses the exponent-aware adder; normalise/accumulate pairing; "
             "rescale-before-stack dominance and form; scale measure and zero sentinel; option reaches every expression branch"
-            "; guard of the zero early-out; may-alias taint of in-place writes in the executor; sibling agreement in kind (array vs bare number) of the executor's stripped returns against the stacking consumer"),
+            "; guard of the zero early-out; may-alias taint of in-place writes in the executor; sibling agreement in kind (array vs bare number) of the executor's stripped returns against the stacking consumer; evaluation of the adder's pure source over a family spanning the property's exponent range against exact rational sums (DESIGN E9)"),
     "C20": ("4 C20", "taint of the bond cap chi (reaches sizes only through min()/comparison); sibling cross-checks of "
             "compress vs its cost estimate, hypergraph vs tree survival rule, exact vs compressed size range; "
             "ownership (freshness) of the simulator's size table; unary-step handling of path consumers"
